@@ -213,7 +213,7 @@ var $internalize = (v, t, recv, seen, makeWrapper) => {
         case $kindBool:
             return !!v;
         case $kindInt:
-            return parseInt(v);
+            return parseInt(v) >> 0;
         case $kindInt8:
             return parseInt(v) << 24 >> 24;
         case $kindInt16:
@@ -221,7 +221,7 @@ var $internalize = (v, t, recv, seen, makeWrapper) => {
         case $kindInt32:
             return parseInt(v) >> 0;
         case $kindUint:
-            return parseInt(v);
+            return parseInt(v) >>> 0;
         case $kindUint8:
             return parseInt(v) << 24 >>> 24;
         case $kindUint16:
